@@ -149,7 +149,7 @@ THOROUGH_SCENARIOS: dict[str, tuple[list[str], list[str], str | None]] = {
     "help": (["--help"], [], "no-run"),
     "bad-refurb-flag": (["src/clean.py", "--no-such-flag"], [], "no-run"),
 }
-STATS_MODES = ["none", "new", "existing", "unwritable"]
+STATS_MODES = ["none", "new", "existing", "unwritable", "directory"]
 EXISTING_JUNK = "previous content, not JSON\n"
 
 
@@ -171,6 +171,10 @@ def make_tree(work: Path) -> bool:
     except OSError:
         unreadable = True
     (work / "existing.json").write_text(EXISTING_JUNK)
+    # the user's own files that happen to have the names an "atomic write" of the statistics file would use: untouchable
+    for nm in ("out.tmp", "out.json.tmp", "existing.tmp", "existing.json.tmp", ".out.json.tmp", "out.json~", "out.bak", "existing.json.bak"):
+        (work / nm).write_text("user data, not refurb's\n")
+    (work / "statsdir").mkdir()
     # give everything an old mtime so that a rewrite with identical content is still noticed
     for dirpath, dirnames, filenames in os.walk(work):
         for name in dirnames + filenames:
@@ -181,7 +185,7 @@ def make_tree(work: Path) -> bool:
 def stats_args(mode: str) -> tuple[list[str], str | None]:
     if mode == "none":
         return [], None
-    rel = {"new": "out.json", "existing": "existing.json", "unwritable": "nodir/out.json"}[mode]
+    rel = {"new": "out.json", "existing": "existing.json", "unwritable": "nodir/out.json", "directory": "statsdir"}[mode]
     return ["--timing-stats", rel], rel
 
 
@@ -256,10 +260,10 @@ def cli_case(root: Path, scenario: str, spec: tuple[list[str], list[str], str | 
         rc, out, err = core.refurb_cli(argv, cwd=cwd, env_extra={"TMPDIR": str(tmp)})
         after = {"work": snapshot(work), "tmp": snapshot(tmp), "cwd": snapshot(cwd) if outside else None}
         reaches = stage is None
-        label = stage or ("stats-write-error" if mode == "unwritable" else "success")
+        label = stage or ("stats-write-error" if mode in ("unwritable", "directory") else "success")
 
         def allowed_cwd(k: str) -> bool:
-            return k == ".mypy_cache" or k.startswith(".mypy_cache/") or (stats_rel is not None and k == stats_rel)
+            return k == ".mypy_cache" or k.startswith(".mypy_cache/") or (stats_rel is not None and k == stats_rel and mode != "directory")
 
         dw = diff_snapshots(before["work"], after["work"], (lambda k: False) if outside else allowed_cwd)
         for x in dw:
@@ -273,7 +277,11 @@ def cli_case(root: Path, scenario: str, spec: tuple[list[str], list[str], str | 
         stats_state = None
         if stats_rel is not None:
             f = cwd / stats_rel
-            if mode == "unwritable":
+            if mode == "directory":
+                stats_state = "directory" if f.is_dir() and not any(f.iterdir()) else "changed"
+                if stats_state == "changed":
+                    defects.append({"kind": "cwd-modified", "label": label, "path": "statsdir", "change": "directory given as FILE was replaced or filled"})
+            elif mode == "unwritable":
                 stats_state = "exists" if f.exists() else "absent"
                 if (cwd / "nodir").exists():
                     defects.append({"kind": "cwd-modified", "label": label, "path": "nodir", "change": "created"})
